@@ -171,7 +171,7 @@ def _worker(pid: str, seed: int, tier: str, lo: int, hi: int, stride: int, deadl
                 agg["stopped_early"] = True
                 break
             agg["indices"] += 1
-            for sc in mod.cases(seed, k, tier):
+            for j, sc in enumerate(mod.cases(seed, k, tier)):
                 res = run_guarded(mod, sc)
                 n += 1
                 agg["evals"] += 1
@@ -193,7 +193,7 @@ def _worker(pid: str, seed: int, tier: str, lo: int, hi: int, stride: int, deadl
                     agg["kf_hits"].update(hits)
                     for cls, detail in un:
                         if sum(1 for v in agg["viol"] if v[0] == cls) < 3:
-                            agg["viol"].append((cls, detail, sc))
+                            agg["viol"].append((cls, detail, dict(sc, _where=[lo, stride, k, j])))
         faulthandler.cancel_dump_traceback_later()
         return ("ok", agg)
     except BaseException as e:  # harness failure inside a worker
@@ -225,6 +225,77 @@ def minimise(mod, known_open, sc, cls, max_runs: int = 600, wall: float = 120.0)
     return cur, runs
 
 
+def history_before(mod, seed, tier, where):
+    """Every scenario the worker that found a violation had run before it (same order, including the determinism re-runs),
+    plus the violating one last."""
+    lo, stride, k_v, j_v = where
+    resample = getattr(mod, "RESAMPLE", 20)
+    out = []
+    n = 0
+    for k in range(lo, k_v + 1, stride):
+        for j, sc in enumerate(mod.cases(seed, k, tier)):
+            out.append(sc)
+            n += 1
+            if k == k_v and j == j_v:
+                return out
+            if resample and n % resample == 0:
+                out.append(sc)
+    return out
+
+
+def _fresh_replay(pid, path, timeout=900):
+    env = dict(os.environ, PYTHONHASHSEED="0")
+    p = subprocess.run([sys.executable, os.path.join(VERIF, "simkit", "main.py"), pid, "--replay", path], capture_output=True, text=True, env=env, timeout=timeout)
+    return p.returncode, p.stdout, p.stderr
+
+
+def sequence_replay(pid, mod, seed, tier, sc, cls, detail, path):
+    """A violation that does not reproduce alone: look for the shortest run of preceding scenarios (same worker, same order) after
+    which it does -- state kept by the library between requests of one process.  Returns the replay path or None."""
+    where = sc.get("_where")
+    if not where:
+        return None
+    hist = history_before(mod, seed, tier, where)
+    target = {k: v for k, v in hist[-1].items() if k != "_where"}
+    prefix = hist[:-1]
+
+    def attempt(pre):
+        doc = {"property": pid, "sequence": [dict(x) for x in pre] + [target], "expect": {"class": cls, "detail": detail}}
+        with open(path, "w") as f:
+            json.dump(doc, f, indent=1, sort_keys=True, default=str)
+        try:
+            rc, out, err = _fresh_replay(pid, path)
+        except subprocess.TimeoutExpired:
+            return False
+        return rc == 1
+
+    n = 1
+    found = None
+    while True:
+        pre = prefix[-n:] if n < len(prefix) else prefix
+        if attempt(pre):
+            found = pre
+            break
+        if n >= len(prefix):
+            break
+        n *= 4
+    if found is None:
+        return None
+    # drop scenarios one at a time while it still reproduces (bounded)
+    cur = list(found)
+    tries = 0
+    i = 0
+    while i < len(cur) and tries < 40 and len(cur) > 1:
+        cand = cur[:i] + cur[i + 1 :]
+        tries += 1
+        if attempt(cand):
+            cur = cand
+        else:
+            i += 1
+    attempt(cur)
+    return path
+
+
 def scenario_size(sc) -> int:
     return len(json.dumps(sc, sort_keys=True))
 
@@ -243,6 +314,13 @@ def replay_file(path: str) -> int:
     if hasattr(mod, "warmup"):
         mod.warmup()
     known_open = [k for k in load_known(pid) if k["status"] == "open"]
+    if "sequence" in sc:
+        # history-dependent violation: the scenarios before the last one are run first, in the same process, in order
+        for prev in sc["sequence"][:-1]:
+            run_guarded(mod, prev)
+        last = dict(sc["sequence"][-1])
+        last["expect"] = sc.get("expect")
+        sc = last
     res = run_guarded(mod, sc)
     exp = (sc.get("expect") or {}).get("class")
     un, hits = unattributed(mod, known_open, sc, res)
@@ -346,9 +424,12 @@ def run_check(pid: str, tier: str, seed: int, n_override=None, workers=None, bud
 
     # 4. new violations: minimise, write, confirm in a fresh interpreter
     by_cls = collections.OrderedDict()
+    origin = {}
     for cls, detail, sc in sorted(viol, key=lambda v: (v[0], scenario_size(v[2]))):
         by_cls.setdefault(cls, (detail, sc))
     for cls, (detail, sc) in list(by_cls.items())[:4]:
+        sc_full = sc
+        sc = {k_: v_ for k_, v_ in sc.items() if k_ != "_where"}
         small, runs = minimise(mod, known_open, sc, cls)
         small = dict(small)
         small["property"] = pid
@@ -360,6 +441,8 @@ def run_check(pid: str, tier: str, seed: int, n_override=None, workers=None, bud
         with open(path[:-5] + ".orig", "w") as f:
             json.dump(dict(sc, property=pid, expect={"class": cls, "detail": detail}), f, indent=1, sort_keys=True, default=str)
         violations_out.append((cls, detail, small, path))
+        origin[path] = sc_full
+    unreproduced = []
     for cls, detail, sc, path in violations_out:
         env = dict(os.environ, PYTHONHASHSEED="0")
         p = subprocess.run([sys.executable, os.path.join(VERIF, "simkit", "main.py"), pid, "--replay", path], capture_output=True, text=True, env=env, timeout=300)
@@ -367,10 +450,23 @@ def run_check(pid: str, tier: str, seed: int, n_override=None, workers=None, bud
             print(f"VIOLATION property={pid} replay={path}")
             print(f"  class={cls} detail={detail}")
             rc = 1
+        elif origin.get(path) is not None and sequence_replay(pid, mod, seed, tier, origin[path], cls, detail, path[:-5] + "-sequence.json"):
+            spath = path[:-5] + "-sequence.json"
+            print(f"VIOLATION property={pid} replay={spath}")
+            print(f"  class={cls} detail={detail}")
+            print("  (history-dependent: reproduces only after the scenarios listed before it in the replay file, run in one process)")
+            rc = 1
         else:
-            print(f"HARNESS-ERROR nondeterministic: violation {cls} did not reproduce in a fresh interpreter ({path})\n{p.stdout[-2000:]}\n{p.stderr[-2000:]}")
-            return 2
+            unreproduced.append(f"violation {cls} did not reproduce in a fresh interpreter ({path})\n{p.stdout[-2000:]}\n{p.stderr[-2000:]}")
 
+    if unreproduced:
+        if rc == 1:
+            # something else was confirmed; these stay notes (state kept between requests makes some of them order-dependent)
+            for u in unreproduced:
+                print("note: " + u.splitlines()[0])
+        else:
+            print("HARNESS-ERROR nondeterministic: " + unreproduced[0])
+            return 2
     wall = time.time() - t0
     cov = {
         "evaluations": evals,
